@@ -20,7 +20,7 @@ open Q1t Q1t.Proto Q1t.Tableau Q1t.Spec.Pauli Q1t.Spec.Stab
 
 def ph : List Nat := Q1t.Gen.phaseTable
 def conjFor (name : String) : Tab.Conj := conjOf Q1t.Gen.conjTable Q1t.Gen.conjNoArityCheck name
-def params : Q1t.Spec.StabEnum.Params := ⟨ph, conjFor⟩
+def params : Q1t.Spec.StabEnum.Params := ⟨ph, fun g => conjFor g.name⟩
 
 def parseTab (s : String) : Option Tab :=
   if s = "_" then some ⟨0, [], []⟩ else Tab.ofLines (s.splitOn ",")
